@@ -264,6 +264,7 @@ func runC12(c *core.Ctx) {
 	jobs, deaths := pool.Stats()
 	c.Count("l2_jobs", jobs)
 	c.Count("l2_process_deaths", deaths)
+	c.Count("l2_priming_runs", pool.Primed())
 }
 
 func ratList(v []*big.Rat) []string {
